@@ -445,7 +445,7 @@ fn files_for_invocation(invocation: &ToolInvocation) -> Result<Option<Vec<PathBu
 
 #[cfg(kani)]
 #[path = "/verif/harness/rip-tools/runtime.rs"]
-mod verif_kani;
+pub mod verif_kani;
 
 #[cfg(test)]
 mod tests {
